@@ -348,6 +348,9 @@ def _bounded(ck, construct, f, loop, paths, names, init):
                 break
         if found:
             break
+    # no pair of up-counters fits: the loop may be bounded some other way (a countdown, a `for`), or not at all - not decided from here
+    ck.shape(found is not None, "isoelectric_point: two coupled up-counters (inner step / reset, outer step) on every continuing path; %d continuing, %d raising paths" % (len(live), len(raises)),
+             f.loc(loop))
     ck.ob("LOOP-bounded", construct, found is not None,
           expected="every continuing path increments the inner counter, or resets it and increments the outer one",
           found={"counters": found, "continuing_paths": len(live), "raising_paths": len(raises)}, slot="counters",
